@@ -159,3 +159,33 @@ func VerifC13_Interleave() {
 	}
 	verifrt.Reach("interleaved")
 }
+
+// VerifC13_SpawnRace: one API operation from every pre-state, where the goroutine it starts (the forced
+// background load a handshake triggers for a new distribution point) runs AT ONCE as a second thread:
+// it goes as far as it can - typically into its download, holding the entry lock - then the spawning
+// handshake continues, and the two alternate whenever one has to wait for the other's lock. No panic,
+// no deadlock, no lock left held, the repository consistent, and in strict mode no acceptance while
+// no list of the distribution point has ever been in force.
+func VerifC13_SpawnRace() {
+	w := c13Setup()
+	a := verifrt.Choose(len(opNames))
+	verifrt.SpawnAsThread(true)
+	w.run(a)
+	ran := verifrt.JoinThread()
+	verifrt.SpawnAsThread(false)
+	if !ran {
+		return // the operation started no goroutine
+	}
+	verifrt.Assert(verifrt.LocksHeld() == 0, "every lock released when the operation and its goroutine have returned")
+	verifrt.RunSpawned()
+	if w.strict && w.state >= 2 && w.srv != 2 {
+		for _, acc := range w.accepted {
+			verifrt.Assert(!acc, "strict: a handshake is never accepted while no CRL of its distribution point has ever been in force, whatever its own background load is doing")
+		}
+	}
+	if a != 5 {
+		ok, _ := w.c.crlRepository.VerifConsistent()
+		verifrt.Assert(ok, "the repository is consistent afterwards")
+	}
+	verifrt.Reach("spawn-race")
+}
